@@ -26,6 +26,8 @@ static U32 absFLen, absSubLen, absZzLen;
 /* pipes that stand in for the host's stdout / stderr while a guest write to 1 / 2 is executed */
 static int hostPipe[3], hostPipeW[3], saved[3];
 
+static int hostClosed = -1;
+
 static void setup(void) {
     static char* argv[] = {"prog", NULL};
     static char* envp[] = {NULL};
@@ -48,7 +50,10 @@ static void setup(void) {
         hostPipe[k] = fds[0]; hostPipeW[k] = fds[1];
         saved[k] = fcntl(k, F_DUPFD, 210);
     }
+    if (hostClosed >= 0) close(hostClosed);       /* the host stream is missing at the moment the WASI layer is initialised */
     if (!wasiInit(1, argv, envp) || !wasiFileDescriptorAdd(-1, a, &pre)) { fprintf(hx_out, "HARNESS-ERROR wasiInit\n"); _exit(71); }
+    /* ... and is taken again at once by something of the host's own, so that no descriptor the WASI layer hands out later shares it */
+    if (hostClosed >= 0 && open("/dev/null", O_RDONLY) != hostClosed) { fprintf(hx_out, "HARNESS-ERROR cannot re-occupy the stream\n"); _exit(71); }
     fprintf(hx_out, "INFO preopen=%u path=%s\n", pre, a);
     {   /* a second pre-opened directory, registered the other way the embedder API allows: together with a native descriptor that is open on it */
         char b2[600]; U32 pre2 = 0; int nfd;
@@ -136,12 +141,16 @@ static int failNextClose;
 static void run(char* history) {
     char* ops[16];
     int n = hx_split(history, ' ', ops, 16), i;
+    /* environment: "hc,<k>" as the FIRST operation = the host process was started with its standard stream k closed (<&- or >&-, a daemon);
+       the numbers 0-2 still denote the host's streams (the missing one is simply not valid), pre-opens keep their numbers */
+    if (n > 0 && !strncmp(ops[0], "hc,", 3)) hostClosed = atoi(ops[0] + 3);
     setup();
     for (i = 0; i < n; i++) {
         char* f[6];
         char det[900] = "";
         int nf = hx_split(ops[i], ',', f, 6);
         U32 e;
+        if (!strcmp(f[0], "hc")) { fprintf(hx_out, "S %d host-closed-stream 0 \n", i); fflush(hx_out); continue; }
         const char* name = f[0];
         errno = EXDEV;      /* environment: errno holds an unrelated stale value when a WASI call begins; no result may depend on it */
         fprintf(hx_out, "INFO step %d begins\n", i); fflush(hx_out);
